@@ -310,7 +310,7 @@ def run(ctx):
         feat["uut"] = union_under_tuple(reg)
         cases.append((case_line(reg, qs), qs, feat, prof))
     if ctx.tier == "thorough":
-        for line, qs in exhaustive_small(ctx):
+        for line, qs in exhaustive_small(ctx, 5):
             cases.append((line, qs, {}, "exhaustive"))
     lines = [c[0] for c in cases]
     rc1, impl = ctx.run_sharded(qt, lines)
@@ -365,18 +365,42 @@ def run(ctx):
     for f in in_dom:
         by_kind[f[1]] = by_kind.get(f[1], 0) + 1
     reported = 0
+    known_hits, unmatched = {}, 0
     for f in in_dom:
         i, stmt, q, r, cex, _ = f
-        key = classify_known(cases[i], f)
+        regtext = reg_text(impl[i])
+        key = classify_known(regtext, stmt, q[1], q[2]) if q else None
         obj = {"kind": "impl-violation", "statement": STATEMENTS.get(stmt, stmt), "query": list(q) if q else None,
                "real_answer": r, "counterexample_value": cex, "case": cases[i][0], "real_output": impl[i],
-               "model_output": model[i], "profile": cases[i][3]}
-        if reported < 8 or key:
-            if ctx.violation(obj, finding_key=key):
+               "model_output": model[i], "profile": cases[i][3], "matched_signature": key}
+        is_known = key is not None and ctx.findings.get(key, {}).get("status") == "known" and ctx.findings[key].get("property") == ctx.pid
+        if is_known:
+            known_hits[key] = known_hits.get(key, 0) + 1
+            ctx.violation(obj, finding_key=key)
+        else:
+            unmatched += 1
+            if reported < 6:
+                ctx.violation(obj)
                 reported += 1
-    for (i, law, ids) in law_failures[:3]:
-        ctx.violation({"kind": "impl-violation", "statement": "is_compatible is transitive", "ids": ids,
-                       "case": cases[i][0], "real_output": impl[i]})
+    for (i, law, ids) in law_failures:
+        key = classify_known(reg_text(impl[i]), "trans", ids[0], ids[2]) or classify_known(reg_text(impl[i]), "trans", ids[0], ids[1]) \
+            or classify_known(reg_text(impl[i]), "trans", ids[1], ids[2])
+        obj = {"kind": "impl-violation", "statement": STATEMENTS["trans"], "ids": list(ids), "case": cases[i][0],
+               "real_output": impl[i], "matched_signature": key}
+        is_known = key is not None and ctx.findings.get(key, {}).get("status") == "known"
+        if is_known:
+            known_hits[key] = known_hits.get(key, 0) + 1
+            ctx.violation(obj, finding_key=key)
+        elif reported < 8:
+            ctx.violation(obj)
+            reported += 1
+    # regression probes of the repaired findings (corpus lines 1 and 2): exact expected answers
+    for idx, want in ((0, ["0", "0", "0", "1", "1"]), (1, ["1", "1"])):
+        if idx < ncorpus:
+            got = (parse_out(impl[idx]) or {}).get("rs", [])
+            if [g for g in got[:len(want)]] != want:
+                ctx.violation({"kind": "impl-violation", "statement": "regression probe of a repaired finding (%s)" % ("F7" if idx == 0 else "F12"),
+                               "case": cases[idx][0], "expected": want, "real_output": impl[idx]})
     for i in dis_cases:
         ctx.violation({"kind": "correspondence-broken", "correspondence": "Rel.v/Narrow.v/Types.v (%s) vs types.rs/narrowing.rs/program.rs" % MODEL_CFG,
                        "case": cases[i][0], "model": model[i], "impl": impl[i]},
@@ -402,6 +426,8 @@ def run(ctx):
         "pairs_checked": pairs_checked, "triples_checked_for_transitivity": triples_checked,
         "graphs_by_profile": hist, "graphs_containing": kinds,
         "oracle_checks": sum(len(m[2]) for m in ometa), "oracle_failures_in_domain": by_kind,
+        "oracle_failures_matching_known_findings": known_hits, "oracle_failures_unmatched": unmatched,
+        "law_failures_transitivity": len(law_failures),
         "oracle_failures_outside_domain": len(failures) - len(in_dom),
         "traces_validated_against_impl": len(cases) - disagreements, "disagreements_checked": disagreements,
         "samples": [c[0] for c in cases[ncorpus:ncorpus + 3]] + [{"case": cases[-1][0], "impl": impl[-1], "model": model[-1]}],
@@ -418,13 +444,185 @@ STATEMENTS = {
     "overlap": "overlap_complete: types_overlap a b = false but a value inhabits both",
     "isect": "intersect_keeps: a value of both a and b is not in intersect_types a b",
     "compl": "complement_keeps: a value of o that is not in n is not in compute_complement o n",
+    "trans": "compat_trans: is_compatible a b and b c but not a c",
 }
 
 
-def classify_known(case, failure):
-    """finding key of a failure, or None (filled in once the F7/F12 decision is taken)"""
+# ---------------------------------------------------------------- structural signatures of the known classes
+class RegView:
+    """parsed registry dump `(reg (tuples ..) (types ..))` with reachability helpers"""
+
+    def __init__(self, regtext):
+        r = sexpr.parse(regtext)
+        self.tuples = [(t[1], [(f[0], int(f[1])) for f in t[2:]]) for t in r[1][1:]]
+        self.types = r[2][1:]
+
+    def children(self, t):
+        ty = self.types[t]
+        k = ty[0]
+        if k == "union":
+            return [int(x) for x in ty[1:]]
+        if k == "tuple":
+            tid = int(ty[1])
+            return [f[1] for f in self.tuples[tid][1]] if tid < len(self.tuples) else []
+        if k == "partial":
+            return [int(f[1]) for f in ty[2:]]
+        if k == "fn":
+            return [int(x) for x in ty[1:4]]
+        if k == "proc":
+            return [int(x) for x in ty[1:3] if x != "-"]
+        return []
+
+    def reach(self, roots):
+        seen, todo = set(), list(roots)
+        while todo:
+            t = todo.pop()
+            if t in seen or t >= len(self.types):
+                continue
+            seen.add(t)
+            todo += self.children(t)
+        return seen
+
+    def kinds(self, ids):
+        return {self.types[t][0] for t in ids}
+
+    def max_cycle_depth(self, ids):
+        return max([int(self.types[t][1]) for t in ids if self.types[t][0] == "cycle"] or [0])
+
+    def free_depth(self, t, memo):
+        """how many binders above `t` its deepest escaping Cycle needs (0 = closed)"""
+        if t in memo:
+            return memo[t]
+        memo[t] = 0
+        ty = self.types[t]
+        if ty[0] == "cycle":
+            d = int(ty[1])
+        else:
+            d = max([self.free_depth(c, memo) for c in self.children(t) if c < len(self.types)] or [0])
+            if ty[0] in ("union", "fn"):
+                d = max(0, d - 1)
+        memo[t] = d
+        return d
+
+    def shared_open(self, a, b):
+        """an open subterm reachable from both sides, or with two parents in the reachable graph"""
+        ra, rb = self.reach([a]), self.reach([b])
+        memo = {}
+        parents = {}
+        for t in ra | rb:
+            for c in set(self.children(t)):
+                parents.setdefault(c, set()).add(t)
+        for t in ra | rb:
+            if self.free_depth(t, memo) > 0 and ((t in ra and t in rb) or len(parents.get(t, ())) >= 2):
+                return True
+        return False
+
+    def label_clash(self, a, b):
+        """tuple shapes with equal name and arity but different labels, one on each side"""
+        ta = [self.tuples[int(self.types[t][1])] for t in self.reach([a]) if self.types[t][0] == "tuple"]
+        tb = [self.tuples[int(self.types[t][1])] for t in self.reach([b]) if self.types[t][0] == "tuple"]
+        for (n1, f1) in ta:
+            for (n2, f2) in tb:
+                if n1 == n2 and len(f1) == len(f2) and [f[0] for f in f1] != [f[0] for f in f2]:
+                    return True
+        return False
+
+    def partial_names(self, ids):
+        return {("named" if self.types[t][1] != "-" else "unnamed") for t in ids if self.types[t][0] == "partial"}
+
+
+HIGHER = {"partial", "fn", "proc"}
+
+
+def classify_known(regtext, stmt, a, b):
+    """finding id whose structural signature the failing (statement, a, b) matches, or None.
+    Narrow on purpose: a failure in the cycle-free first-order fragment matches nothing."""
+    try:
+        rv = RegView(regtext)
+        ra, rb = rv.reach([a]), rv.reach([b])
+    except Exception:
+        return None
+    both = ra | rb
+    kinds = rv.kinds(both)
+    cyc = "cycle" in kinds
+    if stmt in ("compat", "trans"):
+        if cyc and (rv.max_cycle_depth(both) >= 2 or rv.shared_open(a, b)):
+            return "F23"
+        if not cyc and "unnamed" in rv.partial_names(ra) and "named" in rv.partial_names(rb):
+            return "F27"
+        return None
+    if stmt == "overlap":
+        return "F25" if kinds & HIGHER else None
+    if stmt == "isect":
+        if kinds & HIGHER:
+            return "F25"
+        return "F24" if cyc else None
+    if stmt == "compl":
+        if cyc:
+            return "F26" if rv.label_clash(a, b) else "F24"
+        if "unnamed" in rv.partial_names(ra) and "named" in rv.partial_names(rb):
+            return "F27"
+        return None
     return None
 
 
-def exhaustive_small(ctx):
-    return []
+# ---------------------------------------------------------------- exhaustive small scope (thorough)
+def exhaustive_small(ctx, max_nodes=5):
+    """Every type graph of <= max_nodes registered types over a 2-name / 2-label alphabet:
+    leaves int, bin, ^1, ^2; nullary and unary tuples (names 0/1, label none/0), unlabelled pairs
+    (name 0), binary unions of earlier nodes.  Nodes pairwise distinct, each used by a later node or
+    queried; the two queried ids are the last two nodes.  Yields (line, qs)."""
+    def options(k):
+        opts = [("int",), ("bin",), ("cycle", 1), ("cycle", 2)]
+        for n in (0, 1):
+            opts.append(("T", n, ()))
+            for l in (None, 0):
+                for c in range(k):
+                    opts.append(("T", n, ((l, c),)))
+        for c1 in range(k):
+            for c2 in range(k):
+                opts.append(("T", 0, ((None, c1), (None, c2))))
+        for c1 in range(k):
+            for c2 in range(k):
+                if c1 != c2:
+                    opts.append(("union", (c1, c2)))
+        return opts
+
+    def used(nodes):
+        u = set()
+        for nd in nodes:
+            if nd[0] == "T":
+                u |= {c for (_, c) in nd[2]}
+            elif nd[0] == "union":
+                u |= set(nd[1])
+        return u
+
+    def emit(nodes):
+        reg = Reg()
+        ids = []
+        for nd in nodes:
+            if nd[0] == "T":
+                ids.append(reg.ty(("tuple", reg.tu(nd[1], [(l, ids[c]) for (l, c) in nd[2]]))))
+            elif nd[0] == "union":
+                ids.append(reg.ty(("union", tuple(ids[c] for c in nd[1]))))
+            else:
+                ids.append(reg.ty(nd))
+        a, b = ids[-2], ids[-1]
+        if a == b or len(set(ids)) != len(ids):
+            return None
+        qs = [("compat", a, b), ("compat", b, a), ("overlap", a, b), ("overlap", b, a), ("isect", a, b), ("compl", a, b)]
+        return case_line(reg, qs), qs
+
+    def rec(nodes, n):
+        if len(nodes) == n:
+            u = used(nodes)
+            if all(i in u for i in range(n - 2)):
+                r = emit(nodes)
+                if r:
+                    yield r
+            return
+        for o in options(len(nodes)):
+            yield from rec(nodes + [o], n)
+
+    for n in range(2, max_nodes + 1):
+        yield from rec([], n)
